@@ -883,7 +883,8 @@ def int_min(E, st, a, b):
         return a
     if E.decide_cmp(st, "Le", b, a) is True:
         return b
-    m = E.ctx.mk_int(st, min(st.lo(a), st.lo(b)), min(st.hi(a), st.hi(b)), a.ty)
+    ta, tb_ = tl(st, a.vid), tl(st, b.vid)
+    m = E.ctx.mk_int(st, min(st.lo(a), st.lo(b)), min(st.hi(a), st.hi(b)), a.ty, taint=((ta or EMPTY) | (tb_ or EMPTY)) if (ta is not None or tb_ is not None) else False)
     st.add_fact(m.vid, a.vid, 0)
     st.add_fact(m.vid, b.vid, 0)
     return m
@@ -1269,6 +1270,84 @@ def m_iter_anyall(E, st, fr, bi, callee, args, dest_ty):
     return ret1(b, st)
 
 
+def m_iter_position(E, st, fr, bi, callee, args, dest_ty):
+    """Iterator::position(pred) -> Option<usize>.
+    Small constant length: the predicate is evaluated item by item, in order; every index at which it may hold is one
+    `Some(k)` outcome (with the predicate assumed there and refuted before), and `None` remains if it may fail everywhere.
+    Otherwise: the predicate is analysed once on an arbitrary item (its obligations stand for every call);
+    `Some(p)` with 0 <= p < len, and `None` unless the predicate certainly holds on a non-empty iterator."""
+    p = args[0]
+    it = iter_arg(E, st, p)
+    fty = fn_generic_types(callee)[-1]
+    n = it_len(E, st, it)
+    usz = E.ctx.usize_ty()
+    if st.hi(n) == 0:
+        return ret1(En({NONE: ()}), st)
+    c = st.const(n)
+    lim = 160 if (E.ctx.hooks.get("exact_anyall") or E.ctx.hooks.get("kbits_eager")) else max(64, E.ctx.hooks.get("exact_collect_max", 64))
+    if c is not None and c <= lim:
+        outs = []
+        live = [(it, st)]
+        with pinned(E.ctx, n, it, args[1]):
+            for k in range(c):
+                nxt = []
+                for cur, s in live:
+                    with pinned(E.ctx, cur):
+                        its = [o for o in it_next(E, s, fr, bi, cur) if o[0] is not None]
+                    for item, cur2, s2 in its:
+                        with pinned(E.ctx, cur2, item):
+                            rs = call_closure(E, s2, fr, bi, args[1], fty, [item])
+                        for r, s3 in rs:
+                            if type(r) is not I:
+                                raise Unsupported("position: predicate result")
+                            lo, hi = s3.itv[r.vid]
+                            if hi >= 1:
+                                s4 = s3 if lo >= 1 else s3.copy()
+                                if lo < 1:
+                                    E.set_itv(s4, r.vid, 1, 1)
+                                if type(p) is Pt and p.key is not None:
+                                    try:
+                                        write_through(E, s4, p, cur2)
+                                    except Unsupported:
+                                        pass
+                                outs.append((En({SOME: (E.ctx.const_int(s4, k, usz),)}), s4))
+                            if lo <= 0:
+                                if hi >= 1:
+                                    E.set_itv(s3, r.vid, 0, 0)
+                                nxt.append((cur2, s3))
+                live = nxt
+                if len(live) + len(outs) > 200:
+                    raise Unsupported("position: too many outcomes")
+                if not live:
+                    break
+        for cur, s in live:
+            if type(p) is Pt and p.key is not None:
+                try:
+                    write_through(E, s, p, cur)
+                except Unsupported:
+                    pass
+            outs.append((En({NONE: ()}), s))
+        return outs
+    mp = Md("iter", {"k": "map", "inner": it, "f": args[1], "fty": fty})
+    with pinned(E.ctx, n, it):
+        r = it_elem(E, st, fr, bi, mp)
+    may_t = not (type(r) is I and st.itv[r.vid] == (0, 0))
+    may_f = not (type(r) is I and st.itv[r.vid] == (1, 1) and st.lo(n) > 0)
+    try:
+        write_through(E, st, p, it_smash(E, st, it)) if type(p) is Pt and p.key is not None else None
+    except Unsupported:
+        pass
+    outs = []
+    if may_t:
+        s2 = st.copy() if may_f else st
+        pos = E.ctx.mk_int(s2, 0, max(0, st.hi(n) - 1) if st.hi(n) != INF else ISIZE_MAX, usz)
+        s2.add_fact(pos.vid, n.vid, -1)
+        outs.append((En({SOME: (pos,)}), s2))
+    if may_f:
+        outs.append((En({NONE: ()}), st))
+    return outs
+
+
 def m_iter_sum(E, st, fr, bi, callee, args, dest_ty):
     it = iter_arg(E, st, args[0])
     t = E.prog.ty(dest_ty)
@@ -1336,6 +1415,90 @@ def m_iter_sum(E, st, fr, bi, callee, args, dest_ty):
 
 
 
+def m_range_contains(inclusive):
+    """Range / RangeInclusive::<int>::contains(&item): two outcomes — true with start <= item (<|<=) end assumed on the
+    item, false with nothing assumed (the complement is not an interval)"""
+    def f(E, st, fr, bi, callee, args, dest_ty):
+        rg = deref2(E, st, args[0])
+        item = deref2(E, st, args[1])
+        if type(rg) is not Ag or type(item) is not I or len(rg.f) < 2 or type(rg.f[0]) is not I or type(rg.f[1]) is not I:
+            return None
+        if inclusive and len(rg.f) >= 3 and type(rg.f[2]) is I and st.hi(rg.f[2]) != 0:
+            return None                                   # a possibly exhausted inclusive range: leave it to the body
+        lo, hi = rg.f[0], rg.f[1]
+        bool_ty = dest_ty
+        outs = []
+        c1 = E.decide_cmp(st, "Le", lo, item)
+        c2 = E.decide_cmp(st, "Le" if inclusive else "Lt", item, hi)
+        if c1 is not False and c2 is not False:
+            s2 = st.copy()
+            try:
+                E.assume_cmp(s2, "Le", lo.vid, item.vid)
+                E.assume_cmp(s2, "Le" if inclusive else "Lt", item.vid, hi.vid)
+                outs.append((E.ctx.const_int(s2, 1, bool_ty), s2))
+            except Diverge:
+                pass
+        if not (c1 is True and c2 is True):
+            s3 = st.copy() if outs else st
+            outs.append((E.ctx.const_int(s3, 0, bool_ty), s3))
+        return outs
+    f.__name__ = "m_range_contains"
+    return f
+
+
+def m_iter_extremum(kind):
+    """Iterator::max / min over integers -> Option<T>: exact fold for a small constant length, otherwise the hull of the
+    items (Some) and None when the iterator may be empty"""
+    def f(E, st, fr, bi, callee, args, dest_ty):
+        it = iter_arg(E, st, args[0])
+        n = it_len(E, st, it)
+        c = st.const(n)
+        if c == 0:
+            return ret1(En({NONE: ()}), st)
+        if c is not None and c <= max(64, E.ctx.hooks.get("exact_collect_max", 64)):
+            cur, s, acc = it, st, None
+            okk = True
+            with pinned(E.ctx, n, it):
+                for _ in range(c):
+                    with pinned(E.ctx, cur, acc):
+                        outs = [o for o in it_next(E, s, fr, bi, cur) if o[0] is not None]
+                    if len(outs) != 1:
+                        okk = False
+                        break
+                    x, cur, s = outs[0]
+                    if type(x) is Pt:
+                        okk = False            # max over references returns a reference: not modelled here
+                        break
+                    if type(x) is not I:
+                        okk = False
+                        break
+                    if acc is None:
+                        acc = x
+                    elif kind == "min":
+                        acc = int_min(E, s, acc, x)
+                    else:
+                        with pinned(E.ctx, cur, acc, x):
+                            acc = m_minmax("max")(E, s, fr, bi, callee, [acc, x], x.ty)[0][0]
+            if okk and acc is not None:
+                return ret1(En({SOME: (acc,)}), s)
+        with pinned(E.ctx, n, it):
+            item = it_elem(E, st, fr, bi, it)
+        if item is None:
+            return ret1(En({NONE: ()}), st)
+        if type(item) is not I:
+            return None
+        outs = []
+        if st.hi(n) > 0:
+            s2 = st.copy() if st.lo(n) == 0 else st
+            z = E.ctx.mk_int(s2, *s2.itv[item.vid], item.ty, taint=tl(s2, item.vid) if tl(s2, item.vid) is not None else False)
+            outs.append((En({SOME: (z,)}), s2))
+        if st.lo(n) == 0:
+            outs.append((En({NONE: ()}), st))
+        return outs
+    f.__name__ = f"m_iter_{kind}"
+    return f
+
+
 def m_iter_fold(E, st, fr, bi, callee, args, dest_ty):
     """Iterator::fold(init, f) / for_each(f): exact when the iterator has a small constant length (each step is one closure
     call, in order); otherwise not modelled (the caller falls back to the unknown-call treatment)"""
@@ -1353,7 +1516,7 @@ def m_iter_fold(E, st, fr, bi, callee, args, dest_ty):
     if c is None or c > max(64, E.ctx.hooks.get("exact_collect_max", 64)):
         if is_for_each:
             return _for_each_fix(E, st, fr, bi, it, fn_arg, fty)
-        return None
+        return _fold_fix(E, st, fr, bi, it, n, args[1], fn_arg, fty)
     states = [((UNIT if is_for_each else args[1]), it, st)]
     # no case splits on bool-to-int casts inside the step function unless the rule works with known bits: the
     # accumulator would fork at every step
@@ -1392,6 +1555,101 @@ def _for_each_fix(E, st, fr, bi, it, fn_arg, fty):
     raise Unsupported("for_each: no fixpoint")
 
 
+def _fold_fix(E, st, fr, bi, it, n, init, fn_arg, fty):
+    """fold over an iterator of unknown or large length.
+    Integer accumulator: linear extrapolation with the trip count, verified inductively — if one step maps every acc of the
+    candidate range [init + min(0, N dlo), init + max(0, N dhi)] (N = largest possible length) to acc + [dlo, dhi] (difference
+    bounds of the step), then after i <= N steps acc is in init + i [dlo, dhi]; the step's own obligations are recorded on
+    that symbolic run, which stands for every iteration.
+    Any other accumulator: least fixpoint of  S = S0 join step(S)  with widening after three rounds."""
+    from .absint import join_states, same_state, rename_bulk
+    ctx = E.ctx
+    N = st.hi(n)
+    if type(init) is I and N != INF and N <= (1 << 40):
+        tlo, thi = ctx.int_range(init.ty)
+        ilo, ihi = st.itv[init.vid]
+        with pinned(ctx, it, fn_arg, init, n):
+            # probe (quiet): difference bounds of one step from the initial value
+            ctx.quiet += 1
+            try:
+                d = None
+                for item, _, s2 in it_next_abstract(E, st, fr, bi, it):
+                    if item is None:
+                        continue
+                    with pinned(ctx, item):
+                        for r, s3 in call_closure(E, s2, fr, bi, fn_arg, fty, [init, item]):
+                            if type(r) is not I:
+                                d = "no"
+                                break
+                            up, dn = s3.bound(r.vid, init.vid), s3.bound(init.vid, r.vid)
+                            if up is None or dn is None:
+                                d = "no"
+                                break
+                            d = (-dn, up) if d is None else (min(d[0], -dn), max(d[1], up))
+            finally:
+                ctx.quiet -= 1
+            if d is None:
+                return ret1(init, st)                  # the iterator is certainly empty
+            if d != "no":
+                dlo, dhi = d
+                clo, chi = max(tlo, ilo + min(0, N * dlo)), min(thi, ihi + max(0, N * dhi))
+                if ilo + min(0, N * dlo) >= tlo and ihi + max(0, N * dhi) <= thi:
+                    # verify on a symbolic accumulator covering the whole candidate range
+                    ok = True
+                    outs = []
+                    s0 = st.copy()
+                    acc = ctx.mk_int(s0, clo, chi, init.ty, taint=tl(st, init.vid) if tl(st, init.vid) is not None else False)
+                    with pinned(ctx, acc):
+                        for item, _, s2 in it_next_abstract(E, s0, fr, bi, it):
+                            if item is None:
+                                continue
+                            with pinned(ctx, item):
+                                for r, s3 in call_closure(E, s2, fr, bi, fn_arg, fty, [acc, item]):
+                                    if type(r) is not I:
+                                        ok = False
+                                        continue
+                                    up, dn = s3.bound(r.vid, acc.vid), s3.bound(acc.vid, r.vid)
+                                    if up is None or dn is None or up > dhi or -dn < dlo:
+                                        ok = False
+                                    outs.append((r, s3))
+                    if ok and outs:
+                        nlo = st.lo(n)
+                        rlo = ilo + (nlo * dlo if dlo >= 0 else N * dlo)
+                        rhi = ihi + (N * dhi if dhi >= 0 else nlo * dhi)
+                        # the final state: effects of the step on other memory are those of the symbolic run(s), joined with "no step"
+                        fin = st
+                        tagk = (fr.id, ("fold", bi))
+                        for r, s3 in outs:
+                            stale = {x: ctx.fresh() for x in s3.itv if type(x) is tuple and len(x) >= 2 and x[0] == "j" and x[1] == tagk}
+                            rename_bulk(s3, stale)
+                            fin = join_states(ctx, fin, s3, tagk)
+                        z = ctx.mk_int(fin, max(rlo, tlo), min(rhi, thi), init.ty, taint=True if any(tl(s3, r.vid) is not None for r, s3 in outs) else False)
+                        return ret1(z, fin)
+    # generic fixpoint; the accumulator lives in a scratch cell so that joins treat it like any other value
+    key = ("h", "foldacc", fr.id, bi)
+    cur = st
+    cur.store[key] = init
+    tagk = (fr.id, ("fold", bi))
+    with pinned(ctx, it, fn_arg):
+        for rnd in range(60):
+            nxt = cur
+            for item, _, s2 in it_next_abstract(E, cur, fr, bi, it):
+                if item is None:
+                    continue
+                with pinned(ctx, item):
+                    rs = call_closure(E, s2, fr, bi, fn_arg, fty, [s2.store[key], item])
+                for r, s3 in rs:
+                    s3.store[key] = r
+                    stale = {x: ctx.fresh() for x in s3.itv if type(x) is tuple and len(x) >= 2 and x[0] == "j" and x[1] == tagk}
+                    rename_bulk(s3, stale)
+                    nxt = join_states(ctx, nxt, s3, tagk, widen=rnd >= 3)
+            if nxt is cur or same_state(nxt, cur):
+                acc = cur.store.pop(key)
+                return [(acc, cur)]
+            cur = nxt
+    raise Unsupported("fold: no fixpoint")
+
+
 def _fold_steps(E, st, fr, bi, states, c, n, it, fn_arg, fty, is_for_each):
     with pinned(E.ctx, n, it, fn_arg):
         for _ in range(c):
@@ -1417,7 +1675,7 @@ def m_array_from_fn(E, st, fr, bi, callee, args, dest_ty):
     if t.tag != "Array":
         return None
     n = array_len(t)
-    if n is None or n > 64:
+    if n is None or n > max(64, E.ctx.hooks.get("exact_collect_max", 64)):
         return None
     fty = None
     for g in fn_generic_types(callee):
@@ -1439,8 +1697,10 @@ def m_array_from_fn(E, st, fr, bi, callee, args, dest_ty):
     outs = []
     for acc, s in states:
         elem = None
-        for x in acc:
+        for x in (acc if len(acc) <= 64 else acc[:1]):
             elem = x if elem is None else E.join_vals(s, elem, x)
+        if len(acc) > 64:
+            elem = E.havoc_value(s, elem)          # long exact arrays: the summary element is unconstrained, the heads carry the values
         outs.append((Sq(elem if elem is not None else BOT, E.ctx.const_int(s, n, usz), {i: x for i, x in enumerate(acc)}, None), s))
     return outs
 
@@ -1706,13 +1966,13 @@ def m_int_unary(kind):
             ok = lo > 0
             obligation(E, fr, bi, "ilog2", ok, f"argument {st.itv[a.vid]}", "ilog2 argument > 0")
             lo2 = max(lo, 1)
-            return ret1(E.ctx.mk_int(st, lo2.bit_length() - 1, max(hi, 1).bit_length() - 1, dest_ty), st)
+            return ret1(E.ctx.mk_int(st, lo2.bit_length() - 1, max(hi, 1).bit_length() - 1, dest_ty, taint=tl(st, a.vid)), st)
         if kind == "checked_ilog2":
             t = E.prog.ty(dest_ty)
             u32 = t.adt["variants"][SOME]["fields"][0]["ty"]
             vs = {}
             if hi > 0:
-                vs[SOME] = (E.ctx.mk_int(st, max(lo, 1).bit_length() - 1, hi.bit_length() - 1, u32),)
+                vs[SOME] = (E.ctx.mk_int(st, max(lo, 1).bit_length() - 1, hi.bit_length() - 1, u32, taint=tl(st, a.vid)),)
             if lo <= 0:
                 vs[NONE] = ()
             return ret1(En(vs), st)
@@ -1795,6 +2055,28 @@ def m_option_from_residual(E, st, fr, bi, callee, args, dest_ty):
     return ret1(En({NONE: ()}), st)
 
 
+def m_is_power_of_two(E, st, fr, bi, callee, args, dest_ty):
+    """uN::is_power_of_two: decided for constants; otherwise two outcomes, `true` with the value refined to the range's
+    powers of two when only one lies in the interval"""
+    a = args[0]
+    if type(a) is not I:
+        return None
+    lo, hi = st.itv[a.vid]
+    pows = [1 << k for k in range(0, 128) if lo <= (1 << k) <= hi]
+    if lo == hi:
+        return ret1(E.ctx.const_int(st, 1 if pows else 0, dest_ty), st)
+    outs = []
+    if pows:
+        s2 = st.copy()
+        try:
+            E.set_itv(s2, a.vid, pows[0], pows[-1])
+            outs.append((E.ctx.const_int(s2, 1, dest_ty), s2))
+        except Diverge:
+            pass
+    outs.append((E.ctx.const_int(st, 0, dest_ty), st))
+    return outs
+
+
 def m_int_abs(E, st, fr, bi, callee, args, dest_ty):
     a = args[0]
     if type(a) is not I:
@@ -1820,8 +2102,8 @@ def m_int_bits(kind):
             v = {"leading_zeros": bits - lo.bit_length(), "trailing_zeros": (bits if lo == 0 else (lo & -lo).bit_length() - 1), "count_ones": bin(lo).count("1")}[kind]
             return ret1(E.ctx.const_int(st, v, dest_ty), st)
         if kind == "leading_zeros" and lo >= 0:
-            return ret1(E.ctx.mk_int(st, bits - hi.bit_length(), bits - lo.bit_length(), dest_ty), st)
-        return ret1(E.ctx.mk_int(st, 0, bits, dest_ty), st)
+            return ret1(E.ctx.mk_int(st, bits - hi.bit_length(), bits - lo.bit_length(), dest_ty, taint=tl(st, a.vid)), st)
+        return ret1(E.ctx.mk_int(st, 0, bits, dest_ty, taint=tl(st, a.vid)), st)
     f.__name__ = f"m_{kind}"
     return f
 
@@ -1872,7 +2154,8 @@ def m_minmax(kind):
             return ret1(a, st)
         if E.decide_cmp(st, "Ge", b, a) is True:
             return ret1(b, st)
-        m = E.ctx.mk_int(st, max(st.lo(a), st.lo(b)), max(st.hi(a), st.hi(b)), a.ty)
+        ta, tb_ = tl(st, a.vid), tl(st, b.vid)
+        m = E.ctx.mk_int(st, max(st.lo(a), st.lo(b)), max(st.hi(a), st.hi(b)), a.ty, taint=((ta or EMPTY) | (tb_ or EMPTY)) if (ta is not None or tb_ is not None) else False)
         st.add_fact(a.vid, m.vid, 0)
         st.add_fact(b.vid, m.vid, 0)
         return ret1(m, st)
@@ -2136,12 +2419,18 @@ def build(ctx):
     A(r"^<itertools::(Chunks|Chunk)<.*> as std::iter::Iterator>::next$", m_iter_next)
     A(r"^<.* as std::iter::Iterator>::(any|all)::<", m_iter_anyall)
     A(r"^std::iter::Iterator::(any|all)::<", m_iter_anyall)
+    A(r"^<.* as std::iter::Iterator>::position::<", m_iter_position)
+    A(r"^std::iter::Iterator::position::<", m_iter_position)
     A(r"^(core|std)::array::iter::<impl std::iter::IntoIterator for \[.*\]>::into_iter$", m_vec_into_iter)
     for k in ("map", "copied", "cloned", "enumerate", "zip", "skip", "take", "chain", "rev", "filter", "step_by"):
         A(r"^<.* as std::iter::Iterator>::" + k + r"(::<.*>)?$", m_iter_adapt(k))
         A(r"^std::iter::Iterator::" + k + r"(::<.*>)?$", m_iter_adapt(k))
     A(r"^<.* as std::iter::Iterator>::sum::<", m_iter_sum)
     A(r"^std::iter::Iterator::sum::<", m_iter_sum)
+    A(r"^<.* as std::iter::Iterator>::max$", m_iter_extremum("max"))
+    A(r"^std::ops::RangeInclusive::<[iu]\w+>::contains::<[iu]\w+>$", m_range_contains(True))
+    A(r"^std::ops::Range::<[iu]\w+>::contains::<[iu]\w+>$", m_range_contains(False))
+    A(r"^<.* as std::iter::Iterator>::min$", m_iter_extremum("min"))
     A(r"^<.* as std::iter::Iterator>::(fold|for_each)::<", m_iter_fold)
     A(r"^std::iter::Iterator::(fold|for_each)::<", m_iter_fold)
     A(r"^(core|std)::array::from_fn::<", m_array_from_fn)
@@ -2177,6 +2466,9 @@ def build(ctx):
     A(r"^(core|std)::num::<impl i\w+>::abs$", m_int_abs)
     for _k in ("leading_zeros", "trailing_zeros", "count_ones"):
         A(rf"^(core|std)::num::<impl [iu]\w+>::{_k}$", m_int_bits(_k))
+    for _i, _k in (("ctpop", "count_ones"), ("ctlz", "leading_zeros"), ("cttz", "trailing_zeros"), ("ctlz_nonzero", "leading_zeros"), ("cttz_nonzero", "trailing_zeros")):
+        A(rf"^(core|std)::intrinsics::{_i}::<[iu]\w+>$", m_int_bits(_k))
+    A(r"^(core|std)::num::<impl u\w+>::is_power_of_two$", m_is_power_of_two)
     A(r"^(core|std)::f64::<impl f64>::trunc$", m_float_unary("trunc"))
     A(r"^(core|std)::f64::<impl f64>::ceil$", m_float_unary("ceil"))
     A(r"^(core|std)::num::<impl u\w+>::overflowing_sub$", m_overflowing("Sub"))
